@@ -11,5 +11,5 @@ for x in mengine.run(obls,'/tmp/mirscratch','quick'):
         print('    ', c['check'], 'nodes=%d' % c['nodes'], c.get('event_counts'), 'wit=%s z3=%s cvc5=%s %s' % (c.get('witness'), c.get('z3'), c.get('cvc5'), c.get('result','')))
     for f in x.get('failed', []):
         print('   FAILED', f['desc'])
-        for s in f['path']:
+        for s in f.get('path', []):
             if s.get('events') or s.get('return'): print('        ', json.dumps(s)[:300])
